@@ -81,6 +81,7 @@ type Term struct {
 	f       float64  // F64 value
 	name    string   // var name
 	defined bool     // define-fun emitted to solver (per solver instance; see Solver)
+	hasFP   bool     // mentions floating-point arithmetic
 }
 
 func (t *Term) IsConst() bool { return t.isConst }
@@ -187,7 +188,14 @@ func (tt *TermTable) app(op string, s Sort, args ...*Term) *Term {
 	}
 	key := sb.String()
 	return tt.intern(key, func() *Term {
-		return &Term{op: op, sort: s, args: append([]*Term(nil), args...)}
+		t := &Term{op: op, sort: s, args: append([]*Term(nil), args...)}
+		t.hasFP = s.K == SF64 || s.K == SF32
+		for _, a := range args {
+			if a.hasFP || a.sort.K == SF64 || a.sort.K == SF32 {
+				t.hasFP = true
+			}
+		}
+		return t
 	})
 }
 
@@ -525,6 +533,14 @@ func (tt *TermTable) BVCmp(op string, a, b *Term) *Term {
 			return tt.Bool(true)
 		}
 	}
+	// canonical atoms: a <= b is written not(b < a), so a test and its
+	// complement share one atom
+	switch op {
+	case "bvule":
+		return tt.Not(tt.BVCmp("bvult", b, a))
+	case "bvsle":
+		return tt.Not(tt.BVCmp("bvslt", b, a))
+	}
 	return tt.app(op, BoolSort, a, b)
 }
 
@@ -691,6 +707,16 @@ func (tt *TermTable) IntCmp(op string, a, b *Term) *Term {
 	}
 	if a == b {
 		return tt.Bool(op == "<=" || op == ">=")
+	}
+	// one canonical atom per ordered pair: everything is expressed with "<"
+	// so that a condition and its complement share the atom
+	switch op {
+	case ">":
+		return tt.app("<", BoolSort, b, a)
+	case "<=":
+		return tt.Not(tt.app("<", BoolSort, b, a))
+	case ">=":
+		return tt.Not(tt.app("<", BoolSort, a, b))
 	}
 	return tt.app(op, BoolSort, a, b)
 }
@@ -888,7 +914,7 @@ func (tt *TermTable) Eval(t *Term, m Model, memo map[*Term]*Term) *Term {
 		if c, ok := m[t.name]; ok {
 			r = c
 		} else {
-			r = tt.zeroOf(t.sort)
+			r = t // not in the model: stays symbolic (callers treat it as "cannot tell")
 		}
 		memo[t] = r
 		return r
